@@ -189,84 +189,67 @@ def d2_grid(ctx, m, fold, g, g5):
 
 
 def d3_epsilon(ctx, m):
+    """The two epsilon functions are pure integer arithmetic behind a domain guard.  The extracted function (its own statements,
+    module-level index-set constants, no imports, restricted builtins) is evaluated on every index tuple of the box [-1, n+1]^n:
+    inside one of the windows {0..n-1}^n / {1..n}^n it must return the permutation sign (0 for a repeated index), outside it must
+    raise ValueError - whatever the control flow looks like (early returns, helper sets, guard clauses)."""
     rule = 'C20-D3'
+    import copy as _copy
+    consts = [x for x in m.tree.body if isinstance(x, ast.Assign) and isinstance(x.value, (ast.Call, ast.Set, ast.Tuple, ast.List, ast.Dict, ast.Constant))
+              and all(isinstance(y, (ast.Assign, ast.Name, ast.Constant, ast.Set, ast.Tuple, ast.List, ast.Dict, ast.Call, ast.Load, ast.Store, ast.keyword)) for y in ast.walk(x))
+              and all(call_name(y) in ('frozenset', 'set', 'tuple', 'range') for y in ast.walk(x.value) if isinstance(y, ast.Call))]
+    safe = {'set': set, 'frozenset': frozenset, 'ValueError': ValueError, 'Exception': Exception, 'all': all, 'any': any, 'min': min, 'max': max, 'len': len, 'range': range,
+            'sorted': sorted, 'tuple': tuple, 'list': list, 'abs': abs, 'int': int, 'float': float, 'sum': sum, 'isinstance': isinstance}
     for fname, n in (('epsilon_tensor', 3), ('epsilon_tensor_rank4', 4)):
         f = m.func(fname)
         p = [a.arg for a in f.args.args]
         if len(p) != n:
             ctx.unrec(rule, 'dirac.py:%s' % fname, 'expected %d index parameters' % n)
             continue
-        ret = [s for s in statements(f) if isinstance(s, ast.Return)]
-        if len(ret) != 1:
-            ctx.unrec(rule, 'dirac.py:%s' % fname, 'expected one return')
+        if any(isinstance(x, (ast.Import, ast.ImportFrom, ast.Global, ast.Nonlocal, ast.While, ast.Attribute)) for x in ast.walk(f)):
+            ctx.unrec(rule, 'dirac.py:%s' % fname, 'function is not plain index arithmetic (attribute access / import / loop): not evaluated')
             continue
-        syms = sp.symbols(' '.join(p), integer=True)
-        env = dict(zip(p, syms))
-
-        def tr(e):
-            if isinstance(e, ast.Name) and e.id in env:
-                return env[e.id]
-            if isinstance(e, ast.Constant) and isinstance(e.value, (int, float)) and not isinstance(e.value, bool):
-                return sp.nsimplify(e.value, rational=True)
-            if isinstance(e, ast.BinOp):
-                a, b = tr(e.left), tr(e.right)
-                return {ast.Add: lambda: a + b, ast.Sub: lambda: a - b, ast.Mult: lambda: a * b, ast.Div: lambda: a / b, ast.FloorDiv: lambda: sp.floor(a / b), ast.Pow: lambda: a ** b}[type(e.op)]()
-            if isinstance(e, ast.UnaryOp) and isinstance(e.op, ast.USub):
-                return -tr(e.operand)
-            raise Unrecognised('cannot translate %s' % unparse(e))
+        g = _copy.deepcopy(f)
+        g.decorator_list = []
         try:
-            expr = tr(ret[0].value)
-        except (Unrecognised, KeyError) as e:
-            ctx.unrec(rule, 'dirac.py:%s#expression' % fname, str(e))
-            continue
-        # windows admitted by the guard: the function prologue (local assignments + the raising if) is evaluated for every index
-        # tuple of the box [-1, n+1]^n; a tuple must be rejected exactly when it lies in neither {0..n-1}^n nor {1..n}^n
-        rs = [s for s in statements(f) if isinstance(s, ast.Raise)]
-        pro = [s for s in f.body if not (isinstance(s, ast.Expr) and isinstance(s.value, ast.Constant)) and not isinstance(s, ast.Return)]
-        wrong = []
-        try:
-            # module-level constants (sets of admissible indices) the guard may refer to
-            consts = [x for x in m.tree.body if isinstance(x, ast.Assign) and isinstance(x.value, (ast.Call, ast.Set, ast.Tuple, ast.List, ast.Dict, ast.Constant))
-                      and all(isinstance(y, (ast.Assign, ast.Name, ast.Constant, ast.Set, ast.Tuple, ast.List, ast.Dict, ast.Call, ast.Load, ast.Store, ast.keyword)) for y in ast.walk(x))
-                      and all(call_name(y) in ('frozenset', 'set', 'tuple', 'range') for y in ast.walk(x.value) if isinstance(y, ast.Call))]
-            code = compile(ast.Module(body=consts + (pro or [ast.Pass()]), type_ignores=[]), '<prologue>', 'exec')
-            for tup in itertools.product(range(-1, n + 2), repeat=n):
-                envv = dict(zip(p, tup))
-                rejected = False
-                try:
-                    exec(code, {'__builtins__': {'set': set, 'frozenset': frozenset, 'ValueError': ValueError, 'Exception': Exception, 'all': all, 'any': any, 'min': min, 'max': max, 'len': len, 'range': range,
-                                                 'sorted': sorted, 'tuple': tuple, 'list': list}}, envv)
-                except ValueError:
-                    rejected = True
-                inside = all(0 <= x <= n - 1 for x in tup) or all(1 <= x <= n for x in tup)
-                if rejected == inside:
-                    wrong.append(tup)
+            ns = {'__builtins__': safe}
+            exec(compile(ast.fix_missing_locations(ast.Module(body=consts + [g], type_ignores=[])), '<epsilon>', 'exec'), ns)
+            fn = ns[fname]
         except Exception as ex_:
-            ctx.unrec(rule, 'dirac.py:%s#domain' % fname, 'cannot evaluate the domain guard: %r' % ex_)
-            wrong = None
-        if wrong is not None:
-            ctx.check(rule, 'dirac.py:%s#domain' % fname, bool(rs) and not wrong, 'tuples outside the windows {0..%d} / {1..%d} are rejected, tuples inside are accepted (%d tuples evaluated)' % (n - 1, n, (n + 3) ** n),
-                      'the domain guard decides wrongly for the index tuples %s' % wrong[:5], m.loc(f))
-        # exhaustive evaluation on both windows
-        bad = None
+            ctx.unrec(rule, 'dirac.py:%s' % fname, 'cannot evaluate the function: %r' % ex_)
+            continue
+        wrong_dom, wrong_val = [], []
         count = 0
-        for lo in (0, 1):
-            for tup in itertools.product(range(lo, lo + n), repeat=n):
-                count += 1
-                val = expr.subs(dict(zip(syms, tup)))
-                if len(set(tup)) < n:
-                    want = 0
-                else:
-                    perm = [t - lo for t in tup]
-                    inv = sum(1 for a in range(n) for b in range(a + 1, n) if perm[a] > perm[b])
-                    want = -1 if inv % 2 else 1
-                if val != want:
-                    bad = (tup, val, want)
-                    break
-            if bad:
-                break
-        ctx.check(rule, 'dirac.py:%s#values' % fname, bad is None, 'equals the permutation sign on all %d tuples of both windows' % count,
-                  'epsilon%s = %s, expected %s' % (bad[0], bad[1], bad[2]) if bad else '', m.loc(ret[0]))
+        for tup in itertools.product(range(-1, n + 2), repeat=n):
+            count += 1
+            inside = [lo for lo in (0, 1) if all(lo <= x <= lo + n - 1 for x in tup)]
+            try:
+                val = fn(*tup)
+                raised = False
+            except ValueError:
+                raised = True
+            except Exception as ex_:
+                wrong_dom.append((tup, repr(ex_)))
+                continue
+            if not inside:
+                if not raised:
+                    wrong_dom.append((tup, 'returned %r' % (val,)))
+                continue
+            if raised:
+                wrong_dom.append((tup, 'raised'))
+                continue
+            if len(set(tup)) < n:
+                want = 0
+            else:
+                perm = [t - inside[0] for t in tup]
+                inv = sum(1 for a_ in range(n) for b_ in range(a_ + 1, n) if perm[a_] > perm[b_])
+                want = -1 if inv % 2 else 1
+            if val != want:
+                wrong_val.append((tup, val, want))
+        ctx.check(rule, 'dirac.py:%s#domain' % fname, not wrong_dom, 'tuples outside the windows {0..%d} / {1..%d} raise ValueError, tuples inside are accepted (%d tuples evaluated)' % (n - 1, n, count),
+                  'wrong domain behaviour for %s' % wrong_dom[:4], m.loc(f))
+        ctx.check(rule, 'dirac.py:%s#values' % fname, not wrong_val, 'equals the permutation sign on every tuple of both windows',
+                  'epsilon%s = %s, expected %s' % wrong_val[0] if wrong_val else '', m.loc(f))
         ctx.info['epsilon_tuples_' + fname] = count
 
 
